@@ -499,6 +499,7 @@ def one_run(args):
     goroutine after simulation.Terminate()) is repeated, at most twice."""
     bindir, name, opts, timeout = args
     retries = 0
+    slow_retry = False
     while True:
         d = tempfile.mkdtemp(prefix='c18run_', dir=vlib.BUILD)
         t0 = time.time()
@@ -508,6 +509,12 @@ def one_run(args):
             shutil.rmtree(d, ignore_errors=True)
         if rc not in (0, 124) and 'Passed' in log and 'assignment to entry in nil map' in log and retries < 2:
             retries += 1
+            continue
+        if rc == 124 and not slow_retry:
+            # a run that exceeds its limit is repeated once with six times the limit before it is believed to
+            # hang: on a loaded machine a 20 s run can take longer than 45 s (a genuine hang still times out)
+            slow_retry = True
+            timeout = timeout * 6
             continue
         break
     return {'cmd': [name] + opts + ['-verify'], 'rc': rc, 'passed': rc == 0 and 'Passed' in log,
@@ -587,6 +594,8 @@ def e2e_one(args):
     t0 = time.time()
     try:
         rc, log = vlib.run(cmd, cwd=d, timeout=90)
+        if rc == 124:   # repeated once with a long limit before it is believed to hang (loaded machine)
+            rc, log = vlib.run(cmd, cwd=d, timeout=540)
     finally:
         shutil.rmtree(d, ignore_errors=True)
     res = {'bench': bench, 'size': size, 'gpus': gl, 'unified': unified, 'timing': timing, 'rc': rc,
